@@ -273,9 +273,12 @@ pub fn run(tier: Tier, seed: u64) -> i32 {
     // subsets on the two fastest suites in the thorough tier).  This sees defects that a byte-level harness cannot:
     // one where serialize() itself loses or confuses a field, so that only the never-serialized object is right.
     {
-        let cs = chains(false);
+        // choice 4 = an in-memory copy through the type's Clone impl (the weakest form of "saving" an object)
+        let mut cs = chains(false);
+        cs.push(vec![Codec::Clone]);
         let k = if tier.thorough() { 3 } else { 2 };
-        let mut plans: Vec<Vec<usize>> = crate::alphabet::deviations(&[4, 4, 4, 4, 4, 4], k);
+        let mut plans: Vec<Vec<usize>> = crate::alphabet::deviations(&[5, 5, 5, 5, 5, 5], k);
+        plans.push(vec![4, 4, 4, 4, 4, 4]);
         if tier.thorough() {
             plans.push(vec![1, 1, 1, 1, 1, 1]);
             plans.push(vec![2, 2, 2, 2, 2, 2]);
